@@ -148,6 +148,21 @@ let register (reg : string -> (string list -> string) -> unit) : unit =
     | [k; v] -> let w = HtLevels.ht_sample_pack (zi k) (zi v) in
       Printf.sprintf "%d,%d" (iz w) (iz (HtLevels.ht_sample_unpack (zi k) w))
     | _ -> "?");
+  (* ---- whole HT code-block (cleanup pass) ---- *)
+  (* ht_block_encode <w> <h> <kmax> <samples> -> ok:<hex> | err  (HTEncoder.SetKMax + Encode) *)
+  reg "ht_block_encode" (fun a -> match a with
+    | [w; h; k; d] ->
+      (match HtBlockEnc.ht_block_encode (zi w) (zi h) (zi k) (zlist_of_string d) with
+       | Base.Ok l -> "ok:" ^ hex_of_bytes l
+       | Base.Err -> "err" | Base.Panic -> "panic" | Base.OutOfFuel -> "fuel")
+    | _ -> "?");
+  (* ht_block_decode <w> <h> <kmax> <missingMSBs> <hex> -> ok:<samples> | err  (HTDecoder.SetCodingContext + Decode) *)
+  reg "ht_block_decode" (fun a -> match a with
+    | [w; h; k; m; b] ->
+      (match HtBlockDec.ht_block_decode (zi w) (zi h) (zi k) (zi m) (bytes_of_hex b) with
+       | Base.Ok l -> "ok:" ^ string_of_zlist l
+       | Base.Err -> "err" | Base.Panic -> "panic" | Base.OutOfFuel -> "fuel")
+    | _ -> "?");
   ()
 
 let () = registrars := register :: !registrars
